@@ -20,7 +20,7 @@ type tblOp struct {
 }
 
 type cellV struct {
-	Span  int // 0 = none
+	Span  int    // 0 = none
 	VM    string // "", "restart", "continue" (an element without a value continues, as in OOXML), or the value as found
 	VMRaw string // "nil" or "set:<value>": what is stored (for the equality oracles only; the model does not see it)
 	Paras []int
@@ -249,7 +249,10 @@ func gridInvV(v tableV) string {
 	if v.NoGrid {
 		return "no grid"
 	}
-	type pos struct{ start, span int; vm string }
+	type pos struct {
+		start, span int
+		vm          string
+	}
 	var prev []pos
 	for ri, r := range v.Rows {
 		w := 0
